@@ -22,6 +22,14 @@ STRUCTURED_RESULT_KEYS = {
 }
 
 
+def _cfg_path(f, call):
+    """second argument of save_to_json(d, filename) - positional or keyword - read through a single-assignment local"""
+    e = call.args[1] if len(call.args) > 1 else next((k.value for k in call.keywords if k.arg == "filename"), None)
+    if isinstance(e, ast.Name):
+        e = single_assignments(f.node).get(e.id, e)
+    return e
+
+
 def run(ctx):
     prog = ctx.prog
     sr = ctx.fn(FS + ".save_results")
@@ -142,7 +150,7 @@ def run(ctx):
     ctx.ob("R-ORDER", "C19.2", sj, "save_to_json always installs NessaiJSONEncoder (caller kwargs may extend it) and dumps the given dictionary", ok_enc, "")
     sk = ctx.fn(FS + ".save_kwargs")
     call = [c for c in walk_no_nested(sk.node) if isinstance(c, ast.Call) and call_name(c) == "save_to_json"]
-    ctx.ob("R-ORDER", "C19.2", sk, "config.json is written through save_to_json without replacing the encoder (classes, pools, callbacks fall back to str)", len(call) == 1 and not [k for k in call[0].keywords if k.arg == "cls"] and match_expr("os.path.join(self.output, 'config.json')", call[0].args[1]) is not None, "")
+    ctx.ob("R-ORDER", "C19.2", sk, "config.json is written through save_to_json without replacing the encoder (classes, pools, callbacks fall back to str)", len(call) == 1 and not [k for k in call[0].keywords if k.arg == "cls"] and _cfg_path(sk, call[0]) is not None and match_expr("os.path.join(self.output, 'config.json')", _cfg_path(sk, call[0])) is not None, "")
     # json options that make the writer partial (or lossy) on the dictionaries the package writes: sort_keys=True raises
     # TypeError on a dictionary with keys of mixed type (`reparameterisations={"x": .., None: ..}` in config.json) and
     # leaves a truncated file; skipkeys=True drops entries; allow_nan=False raises on NaN / inf (legal evidence values)
@@ -233,8 +241,15 @@ def run(ctx):
     ctx.floor("C19.4", 4)
 
     # ---- C19.5 structured arrays keep their field names in JSON -----------------------------
-    conv = {b["k"].value for n, b in find_stmt("$$d[$k] = live_points_to_dict($$d[$k])", sr.node, gd[0][1] if gd else None) if isinstance(b["k"], ast.Constant)}
-    conv_nodes = [n for n, b in find_stmt("$$d[$k] = live_points_to_dict($$d[$k])", sr.node, gd[0][1] if gd else None)]
+    conv_hits = list(find_stmt("$$d[$k] = live_points_to_dict($$d[$k])", sr.node, gd[0][1] if gd else None))
+    # ... or converted from the very expression that was stored under that key (`d[k] = v` ... `d[k] = live_points_to_dict(v)`)
+    for n_, b_ in find_stmt("$$d[$k] = live_points_to_dict($v)", sr.node, gd[0][1] if gd else None):
+        if any(n_ is m_ for m_, _ in conv_hits) or not isinstance(b_["k"], ast.Constant):
+            continue
+        if any(m_ is not n_ and isinstance(b2_["k"], ast.Constant) and b2_["k"].value == b_["k"].value and src(b2_["v"]) == src(b_["v"]) for m_, b2_ in find_stmt("$$d[$k] = $v", sr.node, gd[0][1] if gd else None)):
+            conv_hits.append((n_, b_))
+    conv = {b["k"].value for n, b in conv_hits if isinstance(b["k"], ast.Constant)}
+    conv_nodes = [n for n, b in conv_hits]
     # every path to the JSON writer passes the conversion (in the JSON arm, or hoisted above the dispatch) ...
     conv_ids = [sa.cfg.id_of(n) for n in conv_nodes]
     conv_guarded = bool(conv_ids) and any(sa.dominates(c_, js[0][0]) for c_ in conv_ids)
